@@ -15,6 +15,36 @@ theorem StrictTotal.asymm {lt : α → α → Bool} (h : StrictTotal lt) {a b : 
   · rfl
   · have := h.trans a b a hab hba; rw [h.irr] at this; cases this
 
+/-- a strict weak order given as a Boolean `<` (the strict part of a total preorder: ties allowed; what `sortBy(key)`
+compares with when two elements have the same key) -/
+structure StrictWeak (lt : α → α → Bool) : Prop where
+  irr : ∀ a, lt a a = false
+  trans : ∀ a b c, lt a b = true → lt b c = true → lt a c = true
+  ntrans : ∀ a b c, lt a b = false → lt b c = false → lt a c = false
+
+theorem StrictWeak.asymm {lt : α → α → Bool} (h : StrictWeak lt) {a b : α} (hab : lt a b = true) : lt b a = false := by
+  cases hba : lt b a
+  · rfl
+  · have := h.trans a b a hab hba; rw [h.irr] at this; cases this
+
+/-- every strict total order is a strict weak order -/
+theorem StrictTotal.weak {lt : α → α → Bool} (h : StrictTotal lt) : StrictWeak lt :=
+  ⟨h.irr, h.trans, fun a b c hab hbc => by
+    cases hac : lt a c
+    · rfl
+    · rcases h.tri a b with h1 | h1 | h1
+      · rw [h1] at hab; cases hab
+      · subst h1; rw [hac] at hbc; cases hbc
+      · rw [h.trans b a c h1 hac] at hbc; cases hbc⟩
+
+/-- the descending comparator of a strict weak order -/
+theorem StrictWeak.flip {lt : α → α → Bool} (h : StrictWeak lt) : StrictWeak (fun a b => lt b a) :=
+  ⟨h.irr, fun a b c h1 h2 => h.trans c b a h2 h1, fun a b c h1 h2 => h.ntrans c b a h2 h1⟩
+
+/-- comparing by an integer key (`IsLess<T,F>` of `sortBy`) is a strict weak order, whatever the key function -/
+theorem strictWeak_key (key : α → Int) : StrictWeak (fun a b => decide (key a < key b)) :=
+  ⟨fun a => by simp, fun a b c h1 h2 => by simp at *; omega, fun a b c h1 h2 => by simp at *; omega⟩
+
 /-- every element at positions `[a, b)` is `≤ p` -/
 def LeP (lt : α → α → Bool) (p : α) (xs : List α) (a b : Nat) : Prop :=
   ∀ i x, a ≤ i → i < b → xs[i]? = some x → lt p x = false
@@ -132,7 +162,7 @@ theorem scanR_spec (lt : α → α → Bool) (p : α) (xs : List α) : ∀ (f r1
 
 
 
-theorem partLoop_spec (lt : α → α → Bool) (hst : StrictTotal lt) (p : α) (sf lo hi : Nat) (hsf : hi - lo + 1 ≤ sf) :
+theorem partLoop_spec (lt : α → α → Bool) (hst : StrictWeak lt) (p : α) (sf lo hi : Nat) (hsf : hi - lo + 1 ≤ sf) :
     ∀ (f : Nat) (xs : List α) (l r1 : Nat), lo ≤ l → l ≤ hi → lo ≤ r1 → r1 ≤ hi → hi ≤ xs.length → (r1 - l) + 2 ≤ f →
     (l + 1 ≤ r1 → (∃ sL, l ≤ sL ∧ sL < hi ∧ NL lt p xs sL) ∧ (∃ sR, lo ≤ sR ∧ sR < r1 ∧ NG lt p xs sR)) →
     LeP lt p xs lo l → GeP lt p xs r1 hi →
@@ -227,7 +257,7 @@ theorem partLoop_spec (lt : α → α → Bool) (hst : StrictTotal lt) (p : α) 
 
 /-- two sorted parts `[a, R)` and `[L, b)` with `R ≤ L`, everything before `L` being `≤ p` and everything from `R` on
 being `≥ p`, form a sorted range `[a, b)` -/
-theorem sorted_join (lt : α → α → Bool) (hst : StrictTotal lt) {p : α} {ys : List α} {a b L R : Nat} (hRL : R ≤ L)
+theorem sorted_join (lt : α → α → Bool) (hst : StrictWeak lt) {p : α} {ys : List α} {a b L R : Nat} (_hRL : R ≤ L)
     (hSA : SortedR lt ys a R) (hSB : SortedR lt ys L b) (hLe : LeP lt p ys a L) (hGe : GeP lt p ys R b) :
     SortedR lt ys a b := by
   intro i j x y h1 h2 h3 hx hy
@@ -237,14 +267,9 @@ theorem sorted_join (lt : α → α → Bool) (hst : StrictTotal lt) {p : α} {y
     · exact hSB i j x y hiL h2 h3 hx hy
     · have hxp := hLe i x h1 (by omega) hx
       have hyp := hGe j y (by omega) h3 hy
-      cases hyx : lt y x
-      · rfl
-      · rcases hst.tri x p with h | h | h
-        · rw [hst.trans y x _ hyx h] at hyp; cases hyp
-        · rw [h] at hyx; rw [hyx] at hyp; cases hyp
-        · rw [h] at hxp; cases hxp
+      exact hst.ntrans y p x hyp hxp
 
-theorem qsortAux_sorted (lt : α → α → Bool) (hst : StrictTotal lt) : ∀ (f : Nat) (xs : List α) (a n : Nat) (ys : List α),
+theorem qsortAux_sorted (lt : α → α → Bool) (hst : StrictWeak lt) : ∀ (f : Nat) (xs : List α) (a n : Nat) (ys : List α),
     qsortAux lt f xs a n = some ys → (2 ≤ n → a + n ≤ xs.length) → Sub xs ys a (a + n) ∧ SortedR lt ys a (a + n) := by
   intro f
   induction f with
@@ -340,8 +365,8 @@ theorem qsortAux_sorted (lt : α → α → Bool) (hst : StrictTotal lt) : ∀ (
               exact t1 i j x y h1 h2 h3 hx hy
             exact ⟨hsub, sorted_join lt hst p4 t2 hSB hLe hGe⟩
 
-/-- **`quicksort` sorts**: for a strict total order the result is in non-decreasing order -/
-theorem qsortList_sorted (lt : α → α → Bool) (hst : StrictTotal lt) {xs ys : List α} (h : qsortList lt xs = some ys) :
+/-- **`quicksort` sorts**: for a strict weak order (ties allowed) the result is in non-decreasing order -/
+theorem qsortList_sorted (lt : α → α → Bool) (hst : StrictWeak lt) {xs ys : List α} (h : qsortList lt xs = some ys) :
     SortedR lt ys 0 ys.length := by
   obtain ⟨s, t⟩ := qsortAux_sorted lt hst _ xs 0 xs.length ys h (by intro _; omega)
   rw [Nat.zero_add] at s t
